@@ -102,9 +102,9 @@ Step ==
   /\ l' = l + 1 /\ Monitors
   /\ (Debug => PrintT(<<"AT", tid, l>>))
   /\ UNCHANGED <<tid, done>>
-  \* C19: at the first reported error, which of the suggested token types cannot be shifted here?
+  \* C19: at the first reported error, which of the suggested texts (token-type sequences; indices into Tr.sugg) cannot be shifted here?
   /\ aux' = IF Ev.e = "error_cb_begin" /\ ncb = 0 /\ "sugg" \in DOMAIN Tr
-            THEN {Tr.sugg[i] : i \in {j \in 1..Len(Tr.sugg) : ~D!ShiftableFrom(stateStack, Tr.sugg[j])}}
+            THEN {j \in 1..Len(Tr.sugg) : ~D!ShiftableSeq(stateStack, Tr.sugg[j])}
             ELSE aux
 
 Finish ==
